@@ -19,6 +19,16 @@ def purePow : List String → Option String
       let x ← ofHex x
       let y ← ofHex y
       pure (showBool (Pow.greaterDifficulty x y))
+  | ["pow-check", h8, d] => do
+      let h8 ← ofHex h8
+      let d ← d.toNat?
+      pure (showBool (Pow.checkPoWNonce h8 d))
+  | ["pow-seq", qs] => do
+      -- a whole session: hash-prefix:difficulty pairs separated by commas; answer = one t/f per query, in order
+      let qs ← (qs.splitOn ",").mapM (fun q => match q.splitOn ":" with
+        | [h, d] => do pure ((← ofHex h), (← d.toNat?))
+        | _ => none)
+      pure (String.ofList ((Pow.checkSeq qs).map (fun b => if b then 't' else 'f')))
   | ["fused-plasma", a] => do
       let a ← a.toInt?
       pure (toString (Pow.fusedAmountToPlasma a))
